@@ -120,12 +120,100 @@ def check_integrator(tree):
             and [ast.unparse(a) for a in call.args] == ["func", "a", "b"]):
         raise TranslateError("_integrator no longer calls scipy.integrate.quad(func, a, b)")
     kws = {k.arg: ast.unparse(k.value) for k in call.keywords}
-    if set(kws) - {"limit", "epsabs", "epsrel"}:
-        raise TranslateError("_integrator: unexpected quad options %s" % sorted(kws))
+    # pinned: scipy's default tolerances (epsabs = epsrel = 1.49e-8) and at least 100 subdivisions;
+    # the known finding quad-unresolved-kink was recorded for exactly this rule
+    if set(kws) != {"limit"}:
+        raise TranslateError("_integrator: quad options %s (expected only limit=...)" %
+                             sorted(kws))
+    lim = pyrx.const_value(call.keywords[0].value)
+    if lim is None or lim.denominator != 1 or lim < 100:
+        raise TranslateError("_integrator: limit=%s (expected an integer literal >= 100)" %
+                             kws["limit"])
     res = ast.unparse(body[0].targets[0])
     if ast.unparse(body[1].value) != "float(%s[0])" % res:
         raise TranslateError("_integrator no longer returns float(res[0])")
     return kws
+
+
+class _IndexToScalar(ast.NodeTransformer):
+    """x[i] -> x"""
+
+    def __init__(self, arr, idx):
+        self.arr, self.idx = arr, idx
+
+    def visit_Subscript(self, node):
+        if isinstance(node.value, ast.Name) and node.value.id == self.arr and \
+                isinstance(node.slice, ast.Name) and node.slice.id == self.idx:
+            return ast.Name(id=self.arr, ctx=ast.Load())
+        return self.generic_visit(node)
+
+
+def dispatcher(tr, cls, tag):
+    """The part of `_functionImplementation` around the nested `wrapper` (scalar / array
+    dispatch).  Fail closed unless it is
+
+        def wrapper(xWrapper): ...
+        if np.isscalar(x):
+            res = wrapper(ARG(x));  return np.asarray([res.real, res.imag])      (or [[..]])
+        results = np.empty(np.asarray(x).shape + (2,), dtype=float)
+        for i in np.ndindex(np.asarray(x).shape):
+            res = wrapper(ARG(x[i]));  results[i] = np.asarray([res.real, res.imag])
+        return results
+
+    with the SAME argument expression ARG in both branches; ARG is translated (so anything but
+    float(x) has to be in the pyrx subset and shows up in the model `<Tag>Eval`)."""
+    fn = tr.fn.get("_functionImplementation")
+    what = "%s._functionImplementation" % cls
+    if fn is None or [a.arg for a in fn.args.args] != ["self", "x"]:
+        raise TranslateError("%s: signature" % what)
+    body = [st for st in fn.body if not (isinstance(st, ast.Expr) and
+                                         isinstance(st.value, ast.Constant))]
+    if len(body) != 5 or not isinstance(body[0], ast.FunctionDef) or \
+            body[0].name != "wrapper" or not isinstance(body[1], ast.If) or \
+            not isinstance(body[2], ast.Assign) or not isinstance(body[3], ast.For) or \
+            not isinstance(body[4], ast.Return):
+        raise TranslateError("%s: statements around `wrapper` changed" % what)
+    iff, alloc, loop, ret = body[1:]
+
+    def wrapper_arg(st, res_name):
+        if not (isinstance(st, ast.Assign) and len(st.targets) == 1 and
+                isinstance(st.targets[0], ast.Name) and st.targets[0].id == res_name and
+                isinstance(st.value, ast.Call) and isinstance(st.value.func, ast.Name) and
+                st.value.func.id == "wrapper" and len(st.value.args) == 1 and
+                not st.value.keywords):
+            raise TranslateError("%s: `res = wrapper(...)` expected (line %d)" % (what,
+                                                                                   st.lineno))
+        return st.value.args[0]
+    pair = "np.asarray([res.real, res.imag])"
+    if ast.unparse(iff.test) != "np.isscalar(x)" or iff.orelse or len(iff.body) != 2 or \
+            not isinstance(iff.body[1], ast.Return) or \
+            ast.unparse(iff.body[1].value) not in (pair, "np.asarray([[res.real, res.imag]])"):
+        raise TranslateError("%s: scalar branch changed" % what)
+    arg_s = wrapper_arg(iff.body[0], "res")
+    if ast.unparse(alloc) != "results = np.empty(np.asarray(x).shape + (2,), dtype=float)":
+        raise TranslateError("%s: allocation of the result changed" % what)
+    if not (isinstance(loop.target, ast.Name) and not loop.orelse and
+            ast.unparse(loop.iter) == "np.ndindex(np.asarray(x).shape)" and
+            len(loop.body) == 2 and
+            ast.unparse(loop.body[1]) == "results[%s] = %s" % (loop.target.id, pair)):
+        raise TranslateError("%s: array loop changed" % what)
+    arg_a = wrapper_arg(loop.body[0], "res")
+    arg_a2 = _IndexToScalar("x", loop.target.id).visit(
+        ast.parse(ast.unparse(arg_a), mode="eval").body)
+    if ast.dump(arg_a2) != ast.dump(ast.parse(ast.unparse(arg_s), mode="eval").body):
+        raise TranslateError("%s: scalar and array branches pass different arguments to "
+                             "wrapper: %s / %s" % (what, ast.unparse(arg_s),
+                                                   ast.unparse(arg_a)))
+    if ast.unparse(ret.value) != "results":
+        raise TranslateError("%s: return value changed" % what)
+    env = pyrx.Env()
+    env.v["x"] = "x"
+    arg = tr.expr(arg_s, env)
+    tr.spans[tag + "Eval"] = (fn.lineno, fn.end_lineno, pyrx._sha(ast.unparse(fn)))
+    return ("(* scalar branch of _functionImplementation; the array branch applies the same to "
+            "every element *)\n"
+            "Definition %sEval (e : env) (x : R) : R * R :=\n"
+            "  let res := %sWrapper e %s in (fst res, snd res)." % (tag, tag, arg))
 
 
 def integrals(src):
@@ -159,6 +247,7 @@ def integrals(src):
         if used != ["xWrapper"]:
             raise TranslateError("%s wrapper depends on %s" % (cls, used))
         out.append(text)
+        out.append(dispatcher(tr, cls, tag))
         spans.update(tr.spans)
         trs.append(tr)
     return "\n".join(out) + "\n", spans, trs
@@ -180,7 +269,7 @@ def _ctor_signature(cls_node, what):
     return fn, names[1:]
 
 
-def constructors(src_integrals, src_base):
+def constructors(src_integrals, src_base, src_pot=None):
     """AST fact: how JbIntegral/JfIntegral.__init__ pass their parameters on to
     InterpolatableFunction.__init__.  For every parameter j of the base constructor the Coq list
     `<Tag>Forward` holds Some i when the argument is exactly the i-th parameter of the subclass
@@ -236,15 +325,112 @@ def constructors(src_integrals, src_base):
         out.append("Definition %sCtorParams : list string := %s." % (tag, sl(cparams)))
         out.append("Definition %sForward : list (option nat) := [%s]%%list." % (
             tag, "; ".join(fw)))
+    if src_pot is not None:
+        out += potential_init(src_pot, src_base)
     return "\n".join(out) + "\n"
+
+
+def potential_init(src_pot, src_base):
+    """AST facts about EffectivePotentialNoResum.__init__ (fail closed on any other shape):
+        self.imaginaryOption = imaginaryOption
+        if integrals: self.integrals = integrals
+        else:
+            self.integrals = Integrals()
+            if useDefaultInterpolation:
+                from WallGo import PotentialTools
+                self.integrals = PotentialTools.defaultIntegrals | copy.deepcopy(<the same>)
+                self.integrals.Jb.disableAdaptiveInterpolation(); ...Jf...
+                self.integrals.Jb.setExtrapolationType(extrapolationTypeLower=E, ...Upper=E)
+                self.integrals.Jf.setExtrapolationType(...)
+    Emitted: the enum EExtrapolationType, the four extrapolation types chosen for the shipped
+    tables, and whether the module-level defaultIntegrals object itself is re-configured."""
+    enum = None
+    for n in ast.parse(src_base).body:
+        if isinstance(n, ast.ClassDef) and n.name == "EExtrapolationType":
+            enum = n
+    if enum is None or [ast.unparse(b) for b in enum.bases] != ["Enum"]:
+        raise TranslateError("EExtrapolationType (Enum) not found")
+    members = []
+    for st in enum.body:
+        if isinstance(st, ast.Assign) and len(st.targets) == 1 and \
+                isinstance(st.targets[0], ast.Name):
+            members.append(st.targets[0].id)
+        elif not (isinstance(st, ast.Expr) and isinstance(st.value, ast.Constant)):
+            raise TranslateError("EExtrapolationType body (line %d)" % st.lineno)
+    cls = None
+    for n in ast.parse(src_pot).body:
+        if isinstance(n, ast.ClassDef) and n.name == "EffectivePotentialNoResum":
+            cls = n
+    if cls is None:
+        raise TranslateError("EffectivePotentialNoResum not found")
+    fn, params = _ctor_signature(cls, "EffectivePotentialNoResum")
+    if params != ["integrals", "useDefaultInterpolation", "imaginaryOption"]:
+        raise TranslateError("EffectivePotentialNoResum.__init__ parameters: %s" % params)
+    defaults = [ast.unparse(d) for d in fn.args.defaults]
+    if defaults != ["None", "False", "EImaginaryOption.ERROR"]:
+        raise TranslateError("EffectivePotentialNoResum.__init__ defaults: %s" % defaults)
+
+    def strip(body):
+        return [st for st in body if not (isinstance(st, ast.Expr) and
+                                          isinstance(st.value, ast.Constant))]
+    body = strip(fn.body)
+    what = "EffectivePotentialNoResum.__init__"
+    if len(body) != 2 or ast.unparse(body[0]) != "self.imaginaryOption = imaginaryOption" or \
+            not isinstance(body[1], ast.If) or ast.unparse(body[1].test) != "integrals":
+        raise TranslateError("%s: top-level statements changed" % what)
+    top = body[1]
+    if [ast.unparse(x) for x in strip(top.body)] != ["self.integrals = integrals"]:
+        raise TranslateError("%s: `if integrals` branch changed" % what)
+    els = strip(top.orelse)
+    if len(els) != 2 or ast.unparse(els[0]) != "self.integrals = Integrals()" or \
+            not isinstance(els[1], ast.If) or \
+            ast.unparse(els[1].test) != "useDefaultInterpolation" or els[1].orelse:
+        raise TranslateError("%s: default-integrals branch changed" % what)
+    d = strip(els[1].body)
+    if len(d) != 6 or not isinstance(d[0], ast.ImportFrom) or \
+            ast.unparse(d[0]) != "from WallGo import PotentialTools":
+        raise TranslateError("%s: useDefaultInterpolation branch changed" % what)
+    src_obj = ast.unparse(d[1])
+    if src_obj == "self.integrals = PotentialTools.defaultIntegrals":
+        alias = "true"
+    elif src_obj == "self.integrals = copy.deepcopy(PotentialTools.defaultIntegrals)":
+        alias = "false"
+    else:
+        raise TranslateError("%s: %s" % (what, src_obj))
+    if [ast.unparse(x) for x in d[2:4]] != [
+            "self.integrals.Jb.disableAdaptiveInterpolation()",
+            "self.integrals.Jf.disableAdaptiveInterpolation()"]:
+        raise TranslateError("%s: adaptive interpolation is not switched off for both "
+                             "tables" % what)
+    out = ["(* generated from interpolatableFunction.py (enum) and "
+           "effectivePotentialNoResum.py (__init__, useDefaultInterpolation=True branch) *)",
+           "Inductive EExtrapolationType := %s." % " | ".join("X" + m for m in members),
+           "Definition DefaultInterpAliasesGlobal : bool := %s." % alias]
+    for st, tag in zip(d[4:6], ("Jb", "Jf")):
+        c = st.value if isinstance(st, ast.Expr) else None
+        if not (isinstance(c, ast.Call) and
+                ast.unparse(c.func) == "self.integrals.%s.setExtrapolationType" % tag and
+                not c.args and sorted(k.arg for k in c.keywords) == [
+                    "extrapolationTypeLower", "extrapolationTypeUpper"]):
+            raise TranslateError("%s: setExtrapolationType call for %s changed" % (what, tag))
+        for k in c.keywords:
+            v = k.value
+            if not (isinstance(v, ast.Attribute) and isinstance(v.value, ast.Name) and
+                    v.value.id == "EExtrapolationType" and v.attr in members):
+                raise TranslateError("%s: extrapolation type %s" % (what, ast.unparse(v)))
+            out.append("Definition DefaultInterp_%s_%s : EExtrapolationType := X%s." % (
+                tag, "lower" if k.arg.endswith("Lower") else "upper", v.attr))
+    return out
 
 
 # --------------------------------------------------------------------------------------------
 # 2. effectivePotentialNoResum.py: potentialOneLoopThermal
 
 class Val:
-    """symbolic value: kind in R (real), V (list R), VP (list (R*R)), B (bool), T (python
-    tuple of Vals), E (enum member), N (None/ignored)"""
+    """symbolic value: kind in R (real), V (list R over the particle index), VP (list (R*R)), B
+    (bool), T (python tuple of Vals), E (enum member), N (None/ignored); for an ARRAY of
+    temperatures additionally VT (list R over the temperatures), C (the same as a column, shape
+    (nT, 1)), M / MP (list of rows, one per temperature, of R / R*R over the particle index)"""
 
     def __init__(self, kind, term, items=None):
         self.kind, self.term, self.items = kind, term, items
@@ -323,6 +509,14 @@ class ThermalSum:
                     pyrx.const_value(sl.elts[1]) in (0, 1):
                 return Val("V", "(map %s %s)" % ("fst" if pyrx.const_value(sl.elts[1]) == 0
                                                   else "snd", v.term))
+            if v.kind == "MP" and isinstance(sl, ast.Tuple) and len(sl.elts) == 2 and \
+                    isinstance(sl.elts[0], ast.Constant) and sl.elts[0].value is Ellipsis and \
+                    pyrx.const_value(sl.elts[1]) in (0, 1):
+                return Val("M", "(map (map %s) %s)" % (
+                    "fst" if pyrx.const_value(sl.elts[1]) == 0 else "snd", v.term))
+            if v.kind == "VT" and ast.unparse(sl) in ("(slice(None, None, None), np.newaxis)",
+                                                      "(:, np.newaxis)", ":, np.newaxis"):
+                return Val("C", v.term)
             raise TranslateError("subscript %s (line %d)" % (ast.unparse(node), node.lineno))
         if isinstance(node, ast.Call):
             return self.call(node, env)
@@ -337,6 +531,9 @@ class ThermalSum:
             n = pyrx.const_value(node.right)
             if a.kind == "R" and n is not None and n.denominator == 1 and n >= 0:
                 return Val("R", "(%s ^ %d)" % (a.term, int(n)))
+            if a.kind == "VT" and n is not None and n.denominator == 1 and n >= 0:
+                x = self.new("t")
+                return Val("VT", "(map (fun %s : R => %s ^ %d) %s)" % (x, x, int(n), a.term))
             raise TranslateError("power (line %d)" % node.lineno)
         a, b = self.ex(node.left, env), self.ex(node.right, env)
         op = {ast.Add: "+", ast.Sub: "-", ast.Mult: "*", ast.Div: "/"}.get(type(node.op))
@@ -354,6 +551,21 @@ class ThermalSum:
             # numpy elementwise on equal shapes (broadcasting of unequal shapes is not modelled:
             # zipR truncates, theorems assume equal lengths)
             return Val("V", "(zipR (fun a_ b_ : R => a_ %s b_) %s %s)" % (op, a.term, b.term))
+        # array of temperatures
+        if a.kind == "VT" and b.kind == "R":
+            x = self.new("t")
+            return Val("VT", "(map (fun %s : R => %s %s %s) %s)" % (x, x, op, b.term, a.term))
+        if a.kind == "VT" and b.kind == "VT":
+            return Val("VT", "(zipR (fun a_ b_ : R => a_ %s b_) %s %s)" % (op, a.term, b.term))
+        if a.kind == "V" and b.kind == "C":
+            # (k,) op (nT, 1) -> (nT, k)
+            x, t = self.new("m"), self.new("t")
+            return Val("M", "(map (fun %s : R => map (fun %s : R => %s %s %s) %s) %s)" % (
+                t, x, x, op, t, a.term, b.term))
+        if a.kind == "V" and b.kind == "M":
+            # (k,) op (nT, k): broadcast along the temperatures
+            return Val("M", "(map (zipR (fun a_ b_ : R => a_ %s b_) %s) %s)" % (
+                op, a.term, b.term))
         raise TranslateError("operands %s %s %s (line %d)" % (a.kind, op, b.kind, node.lineno))
 
     def call(self, node, env):
@@ -361,19 +573,25 @@ class ThermalSum:
         kw = {k.arg: ast.unparse(k.value) for k in node.keywords}
         args = node.args
         if f in ("np.asanyarray", "np.asarray", "np.real", "float") and len(args) == 1 \
-                and not kw:
+                and (not kw or (f in ("np.asanyarray", "np.asarray") and
+                                kw == {"dtype": "float"})):
+            # a conversion to float is the identity of the real-number model
             return self.ex(args[0], env)
         if f in ("np.abs", "abs") and len(args) == 1 and not kw:
             a = self.ex(args[0], env)
             if a.kind == "R":
                 return Val("R", "(Rabs %s)" % a.term)
-            if a.kind == "V":
-                return Val("V", "(map Rabs %s)" % a.term)
+            if a.kind in ("V", "VT"):
+                return Val(a.kind, "(map Rabs %s)" % a.term)
             raise TranslateError("abs of %s (line %d)" % (a.kind, node.lineno))
-        if f == "np.sum" and len(args) == 1 and kw in ({"axis": "-1"}, {}):
+        if f == "np.sum" and len(args) == 1 and kw == {"axis": "-1"}:
+            # axis=-1 is REQUIRED: for an array of temperatures the operand is (nT, k) and a
+            # sum without axis would mix the temperatures
             a = self.ex(args[0], env)
             if a.kind == "V":
                 return Val("R", "(sumR %s)" % a.term)
+            if a.kind == "M":
+                return Val("VT", "(map sumR %s)" % a.term)
             raise TranslateError("np.sum of %s (line %d)" % (a.kind, node.lineno))
         if f == "np.any" and len(args) == 1 and not kw:
             t = args[0]
@@ -390,6 +608,8 @@ class ThermalSum:
             a = self.ex(args[0], env)
             if a.kind == "V":
                 return Val("VP", "(map (%s e) %s)" % (f.split(".")[-1], a.term))
+            if a.kind == "M":
+                return Val("MP", "(map (map (%s e)) %s)" % (f.split(".")[-1], a.term))
             raise TranslateError("%s of %s (line %d)" % (f, a.kind, node.lineno))
         raise TranslateError("call %s (line %d)" % (ast.unparse(node)[:60], node.lineno))
 
@@ -419,6 +639,8 @@ class ThermalSum:
             v = self.ex(node.left.value, env)
             if v.kind == "R":
                 return False
+            if v.kind == "VT":
+                return True
             raise TranslateError(".ndim of %s" % v.kind)
         if isinstance(node, ast.Call) and ast.unparse(node.func) == "np.isscalar":
             return "either"
@@ -459,6 +681,8 @@ class ThermalSum:
             s = self.static_test(st.test, env)
             if s is False:
                 return self.block(st.orelse + rest, env)
+            if s is True:
+                return self.block(st.body + rest, env)
             if s == "either":
                 a = self.block(st.body + rest, dict(env))
                 b = self.block(st.orelse + rest, dict(env))
@@ -475,7 +699,7 @@ class ThermalSum:
             return "None"
         if isinstance(st, ast.Return):
             v = self.ex(st.value, env)
-            if v.kind != "R":
+            if v.kind != self.ret_kind:
                 raise TranslateError("return of %s (line %d)" % (v.kind, st.lineno))
             return "Some %s" % v.term
         raise TranslateError("statement %s (line %d)" % (type(st).__name__, st.lineno))
@@ -501,7 +725,13 @@ class ThermalSum:
                                         Val("N", "")]),
             "temperature": Val("R", "temperature"),
         }
+        self.ret_kind = "R"
         body = self.block(fn.body, env)
+        # second instance: a 1-D array of temperatures (same 1-D particle content)
+        env_a = dict(env)
+        env_a["temperature"] = Val("VT", "temperatures")
+        self.ret_kind = "VT"
+        body_a = self.block(fn.body, env_a)
         out = ["From Coq Require Import Reals List Bool.",
                "From WG Require Import Lib.ThermalSum.",
                "Import ListNotations.", "Local Open Scope R_scope.",
@@ -514,7 +744,11 @@ class ThermalSum:
                "Definition %s : R := %s." % (c, pyrx.rlit(self.consts[c]))
                for c in sorted(self.used_consts)] + [
                "Definition potentialOneLoopThermal (e : env) (opt : EImaginaryOption)\n"
-               "  (massSqB nB massSqF nF : list R) (temperature : R) : option R :=\n  %s." % body]
+               "  (massSqB nB massSqF nF : list R) (temperature : R) : option R :=\n  %s." % body,
+               "(* the same method for a 1-D ARRAY of temperatures (the `ndim > 0` branch) *)",
+               "Definition potentialOneLoopThermalArr (e : env) (opt : EImaginaryOption)\n"
+               "  (massSqB nB massSqF nF : list R) (temperatures : list R) : option (list R) "
+               ":=\n  %s." % body_a]
         span = {"potentialOneLoopThermal": (fn.lineno, fn.end_lineno,
                                             pyrx._sha(ast.unparse(fn)))}
         return "\n".join(out) + "\n", span
